@@ -6,35 +6,35 @@ package jen
 // comments: with the build tag off it is not compiled, with it on it adds nothing to the binary.
 // Syntax: see /verif/DESIGN.md section 2.4.
 
-//@ func IsReservedWord [C05]
+//@ func IsReservedWord [C02,C03,C05,C09]
 //@   ensures [C05] oracle: (isKeyword(alias) || isUniverse(alias)) ==> result
 //@   ensures [C05] member: result <==> (exists j int :: 0 <= j && j < len(reserved) && reserved[j] == alias)
 //@   loop 1 invariant notyet: forall j int :: (0 <= j && j < $i) ==> reserved[j] != alias
 //@   loop 1 invariant bound: $i <= len(reserved)
 
-//@ func (*File).isLocal [C06]
+//@ func (*File).isLocal [C02,C03,C05,C06,C09]
 //@   requires f != nil
 //@   ensures [C06] exact: result == (f.path == path)
 
-//@ func (*File).isValidAlias [C03,C05,C06]
+//@ func (*File).isValidAlias [C02,C03,C05,C06,C07,C09,C19]
 //@   requires f != nil
 //@   ensures [C03,C05,C06] spec: result == (alias == "." || (!isReserved(alias) && alias != "C" && (forall p string :: has(f.imports, p) ==> f.imports[p].name != alias)))
 //@   loop 1 invariant seen: forall j int :: (0 <= j && j < $i) ==> $m[$ks[j]].name != alias
 
-//@ func (*File).isDotImport [C06,C08,C19]
+//@ func (*File).isDotImport [C02,C03,C05,C06,C08,C09,C19]
 //@   requires f != nil
 //@   ensures [C06,C08,C19] spec: result == dotNow(Fof(f), mapof(f.imports), path)
 
-//@ func (*File).prefixed [C03,C05,C06,C19]
+//@ func (*File).prefixed [C02,C03,C05,C06,C09,C19]
 //@   requires f != nil
 //@   ensures def: result == ((f.PackagePrefix != "" && alias && name != ".") ? f.PackagePrefix + "_" + name : name)
 
-//@ func guessAlias [C05]
+//@ func guessAlias [C02,C03,C05,C09]
 //@   ensures [C05] ident: identLower(result)
 //@   loop 1 invariant alnum: alnumLower(alias)
 //@   loop 1 invariant decoded: firstRune == firstRune(alias) && runeLen == runeLen(alias)
 
-//@ func (*File).register [C03,C04,C05,C06,C08,C18,C19]
+//@ func (*File).register [C02,C03,C04,C05,C06,C07,C08,C09,C18,C19]
 //@   requires f != nil && f.imports != nil && f.imports != f.hints
 //@   requires wfImp(mapof(f.imports)) && uniq(mapof(f.imports))
 //@   requires hintsOK(mapof(f.hints))
@@ -72,52 +72,52 @@ package jen
 //@   requires file: regpre(f)
 //@   free requires tree: treeOK()
 //@   modifies written[w], nwrites[w], failed[w], mapof(f.imports)
-//@   ensures [C01,C13,C03,C06,C11,C12,C15] spec: err == nil ==> StOf(w, f) == R(c, s, Fof(f), old(StOf(w, f)))
+//@   ensures [C01,C13,C03,C06,C11,C12,C15,C07,C16,C17,C02] spec: err == nil ==> StOf(w, f) == R(c, s, Fof(f), old(StOf(w, f)))
 //@   ensures file: regpre(f) && Fof(f) == old(Fof(f))
 //@   ensures [C08,C03] stable: stable(old(mapof(f.imports)), mapof(f.imports))
 
-//@ func (token).isNull [C13,C06,C08,C04]
+//@ func (token).isNull [C01,C02,C03,C04,C06,C08,C09,C13,C19]
 //@   implements Code.isNull
 //@   requires wfTok(t)
 
-//@ func (comment).isNull [C13,C15]
+//@ func (comment).isNull [C01,C02,C04,C08,C09,C13,C15]
 //@   implements Code.isNull
 
-//@ func (tag).isNull [C13,C17]
+//@ func (tag).isNull [C01,C02,C04,C08,C09,C13,C17]
 //@   implements Code.isNull
 
-//@ func (*Group).isNull [C13,C04]
+//@ func (*Group).isNull [C01,C02,C04,C08,C09,C13]
 //@   implements Code.isNull
 
-//@ func (*Group).isNullItems [C13,C04]
+//@ func (*Group).isNullItems [C01,C02,C04,C08,C09,C13]
 //@   requires f != nil && g != nil
 //@   free requires tree: treeOK()
 //@   ensures [C13] spec: result == allNull(g.items, Fof(f), mapof(f.imports))
 //@   loop 1 invariant sofar: forall j int :: { g.items[j] } (0 <= j && j < $i) ==> (g.items[j] == C_nil || null(g.items[j], Fof(f), mapof(f.imports)))
 
-//@ func (*Statement).isNull [C13,C04]
+//@ func (*Statement).isNull [C01,C02,C04,C08,C09,C13]
 //@   implements Code.isNull
 //@   loop 1 invariant sofar: forall j int :: { (*s)[j] } (0 <= j && j < $i) ==> ((*s)[j] == C_nil || null((*s)[j], Fof(f), mapof(f.imports)))
 
-//@ func (comment).render [C15,C01]
+//@ func (comment).render [C01,C02,C04,C07,C08,C09,C15]
 //@   implements Code.render
 
-//@ func (token).render [C01,C03,C11,C12,C13]
+//@ func (token).render [C01,C02,C03,C04,C06,C07,C08,C09,C11,C12,C13]
 //@   implements Code.render
 
-//@ func (*Statement).previous [C01]
+//@ func (*Statement).previous [C01,C02,C04,C07,C08,C09]
 //@   unfold prevAt
 //@   requires s != nil
 //@   ensures spec: result == prevAt(*s, 0, c)
 //@   loop 1 invariant scan: index == 0 - 1 && prevAt(*s, $i, c) == prevAt(*s, 0, c)
 
-//@ func (*Statement).render [C01,C13]
+//@ func (*Statement).render [C01,C02,C04,C07,C08,C09,C13]
 //@   implements Code.render
 //@   unfold R RS null treeOK stable wfImp
 //@   loop 1 invariant rs: RS(*s, $i, first, s, Fof(f), StOf(w, f)) == RS(*s, 0, true, s, Fof(f), old(StOf(w, f)))
 //@   loop 1 invariant file: regpre(f) && Fof(f) == old(Fof(f)) && stable(old(mapof(f.imports)), mapof(f.imports))
 
-//@ func (*Group).renderItems [C01,C13,C03,C06,C04]
+//@ func (*Group).renderItems [C01,C02,C03,C04,C06,C07,C08,C09,C13,C15,C16,C19]
 //@   unfold RI null treeOK stable wfImp
 //@   requires g != nil
 //@   requires file: regpre(f)
@@ -131,16 +131,16 @@ package jen
 //@   loop 1 invariant ri: RI(g.items, $i, first, g.separator, g.multi, Fof(f), StOf(w, f)) == RI(g.items, 0, true, g.separator, g.multi, Fof(f), old(StOf(w, f)))
 //@   loop 1 invariant file: regpre(f) && Fof(f) == old(Fof(f)) && stable(old(mapof(f.imports)), mapof(f.imports))
 
-//@ func (*Group).render [C01,C13,C08,C09,C15]
+//@ func (*Group).render [C01,C02,C04,C07,C08,C09,C13,C15]
 //@   implements Code.render
 //@   unfold R stable wfImp
 
 // ---- file assembly ----
 
-//@ func Comment [C15,C14,C02,C10,C19,C04,C03,C07]
+//@ func Comment [C01,C02,C03,C04,C07,C08,C09,C10,C14,C15,C19]
 //@   ensures [C15,C14] one: fresh(result) && len(*result) == 1 && (*result)[0] == C_comment(mk_comment(str))
 
-//@ func (*File).renderImports [C03,C04,C07,C19,C15,C02]
+//@ func (*File).renderImports [C01,C02,C03,C04,C07,C08,C09,C10,C15,C19]
 //@   unfold CommentLines stable wfImp
 //@   requires file: regpre(f)
 //@   requires source != 0
@@ -177,7 +177,7 @@ package jen
 //@   loop 5 invariant unfold(MainBlockText) main: atLoopEntry(written[source]) == old(written[source]) ++ MainBlockText(mainBlock(old(mapof(f.imports)), len(f.cgoPreamble) > 0))
 //@   loop 5 invariant pre: written[source] == atLoopEntry(written[source]) ++ CommentLines(cells(f.cgoPreamble), $i)
 
-//@ func (*File).Render [C01,C02,C03,C04,C08,C10,C15,C19,C07]
+//@ func (*File).Render [C01,C02,C03,C04,C07,C08,C09,C10,C15,C19]
 //@   unfold none
 //@   requires file: regpre(f) && f.Group != nil && w != 0
 //@   free requires tree: treeOK()
@@ -201,7 +201,7 @@ package jen
 //@   loop 2 invariant wsame: written[w] == old(written[w]) && nwrites[w] == old(nwrites[w]) && failed[w] == old(failed[w])
 //@   loop 2 invariant imp: mapof(f.imports) == atLoopEntry(mapof(f.imports)) && regpre(f) && Fof(f) == old(Fof(f)) && written[body] == atLoopEntry(written[body]) && cells(f.comments) == old(cells(f.comments)) && cells(f.cgoPreamble) == old(cells(f.cgoPreamble))
 
-//@ func (*File).Save [C10]
+//@ func (*File).Save [C02,C09,C10]
 //@   requires file: regpre(f) && f.Group != nil
 //@   free requires tree: treeOK()
 //@   modifies mapof(f.imports), fslog, fsname, fsdata
@@ -212,7 +212,7 @@ package jen
 
 // ---- fragments ----
 
-//@ func NewFile [C02,C09,C14,C10]
+//@ func NewFile [C02,C09,C10,C14]
 //@   ensures [C09] fresh: fresh(result) && fresh(result.Group) && fresh(result.imports) && fresh(result.hints) && result.imports != result.hints
 //@   ensures empty: len(result.imports) == 0 && len(result.hints) == 0 && (forall p string :: !has(result.imports, p) && !has(result.hints, p) && result.imports[p] == mk_importdef("", false) && result.hints[p] == mk_importdef("", false))
 //@   ensures fields: result.name == packageName && result.path == "" && result.PackagePrefix == "" && result.CanonicalPath == "" && !result.NoFormat
@@ -221,7 +221,7 @@ package jen
 //@   ensures file: regpre(result)
 //@   ensures [C14] emptymaps: mapof(result.imports) == emptyImp(result) && mapof(result.hints) == emptyImp(result)
 
-//@ func (*Statement).RenderWithFile [C02,C08,C10,C14]
+//@ func (*Statement).RenderWithFile [C02,C07,C08,C09,C10,C14]
 //@   unfold none
 //@   requires s != nil && regpre(file) && writer != 0
 //@   free requires tree: treeOK()
@@ -235,7 +235,7 @@ package jen
 //@   ensures [C08] imports: err == nil ==> mapof(file.imports) == FragSt(C_pStatement(s), file, old(mapof(file.imports))).imp
 //@   ensures [C08] unfold(stable wfImp) stable: stable(old(mapof(file.imports)), mapof(file.imports)) && regpre(file) && Fof(file) == old(Fof(file))
 
-//@ func (*Group).RenderWithFile [C02,C08,C10,C14]
+//@ func (*Group).RenderWithFile [C02,C07,C08,C09,C10,C14]
 //@   unfold none
 //@   requires g != nil && regpre(file) && writer != 0
 //@   free requires tree: treeOK()
@@ -249,7 +249,7 @@ package jen
 //@   ensures [C08] imports: err == nil ==> mapof(file.imports) == FragSt(C_pGroup(g), file, old(mapof(file.imports))).imp
 //@   ensures [C08] unfold(stable wfImp) stable: stable(old(mapof(file.imports)), mapof(file.imports)) && regpre(file) && Fof(file) == old(Fof(file))
 
-//@ func (*Statement).Render [C02,C10,C14]
+//@ func (*Statement).Render [C02,C09,C10,C14]
 //@   unfold none
 //@   requires s != nil && writer != 0
 //@   free requires tree: treeOK()
@@ -259,7 +259,7 @@ package jen
 //@   ensures [C10] atomic: nwrites[writer] == old(nwrites[writer]) ==> (written[writer] == old(written[writer]) && result != nil)
 //@   ensures [C10] errprop: (failed[writer] && !old(failed[writer])) ==> result != nil
 
-//@ func (*Group).Render [C02,C10,C14]
+//@ func (*Group).Render [C02,C09,C10,C14]
 //@   unfold none
 //@   requires g != nil && writer != 0
 //@   free requires tree: treeOK()
@@ -269,7 +269,7 @@ package jen
 //@   ensures [C10] atomic: nwrites[writer] == old(nwrites[writer]) ==> (written[writer] == old(written[writer]) && result != nil)
 //@   ensures [C10] errprop: (failed[writer] && !old(failed[writer])) ==> result != nil
 
-//@ func (*File).GoString [C14,C02]
+//@ func (*File).GoString [C02,C09,C14]
 //@   unfold none
 //@   requires file: regpre(f) && f.Group != nil
 //@   free requires tree: treeOK()
@@ -277,14 +277,14 @@ package jen
 //@   ensures [C14] same: result == FileOut(f, old(mapof(f.imports)))
 //@   panics [C14] renderfailed: err != nil
 
-//@ func (*Statement).GoString [C14,C02]
+//@ func (*Statement).GoString [C02,C09,C14]
 //@   unfold none
 //@   requires s != nil
 //@   free requires tree: treeOK()
 //@   ensures [C14] same: result == fmtOf(LoneSt(C_pStatement(s), nil).out)
 //@   panics [C14] renderfailed: err != nil
 
-//@ func (*Group).GoString [C14,C02]
+//@ func (*Group).GoString [C02,C09,C14]
 //@   unfold none
 //@   requires g != nil
 //@   free requires tree: treeOK()
@@ -304,19 +304,19 @@ package jen
 //@       : (has(f.imports, q) == old(has(f.imports, q)) && f.imports[q] == old(f.imports[q]))
 //@   loop 1 invariant bound: $i <= len(paths) && cells(paths) == old(cells(paths))
 
-//@ func (*File).ImportName [C04,C08]
+//@ func (*File).ImportName [C04,C08,C09]
 //@   requires f != nil && f.hints != nil && f.hints != f.imports
 //@   modifies mapof(f.hints)
 //@   ensures [C04,C08] noimport: mapof(f.imports) == old(mapof(f.imports))
 //@   ensures hint: f.hints[path] == mk_importdef(name, false) && (forall q string :: q != path ==> f.hints[q] == old(f.hints[q]))
 
-//@ func (*File).ImportAlias [C04,C08]
+//@ func (*File).ImportAlias [C04,C08,C09]
 //@   requires f != nil && f.hints != nil && f.hints != f.imports
 //@   modifies mapof(f.hints)
 //@   ensures [C04,C08] noimport: mapof(f.imports) == old(mapof(f.imports))
 //@   ensures hint: f.hints[path] == mk_importdef(alias, true) && (forall q string :: q != path ==> f.hints[q] == old(f.hints[q]))
 
-//@ func (*File).ImportNames [C04,C07,C08]
+//@ func (*File).ImportNames [C04,C07,C08,C09]
 //@   requires f != nil && f.hints != nil && f.hints != f.imports && names != f.hints && names != f.imports
 //@   modifies mapof(f.hints)
 //@   ensures [C04,C08] noimport: mapof(f.imports) == old(mapof(f.imports))
@@ -326,7 +326,7 @@ package jen
 
 // ---- tag ----
 
-//@ func (tag).render [C17,C07,C02,C01]
+//@ func (tag).render [C01,C02,C04,C07,C08,C09,C17]
 //@   implements Code.render
 //@   unfold R null stable wfImp
 //@   loop 1 cut
@@ -343,13 +343,13 @@ package jen
 
 // ---- Dict ----
 
-//@ func (Dict).isNull [C13,C16,C04]
+//@ func (Dict).isNull [C01,C02,C04,C08,C09,C13,C16]
 //@   implements Code.isNull
 //@   unfold null
 //@   loop 1 invariant none: forall j int :: { $ks[j] } (0 <= j && j < $i) ==> !live($ks[j], $m.val[$ks[j]], Fof(f), mapof(f.imports))
 //@   loop 1 invariant same: $m == mapof(d)
 
-//@ func (Dict).render [C16,C07,C02,C08,C04,C13]
+//@ func (Dict).render [C01,C02,C04,C07,C08,C09,C13,C16]
 //@   implements Code.render
 //@   unfold null treeOK stable wfImp
 //@   loop 1 invariant lk: forall t string :: { mapof(lookup).val[t] } has(lookup, t) ==> (okRecv(lookup[t].k) && okRecv(lookup[t].v) && has(d, lookup[t].k) && d[lookup[t].k] == lookup[t].v)
